@@ -66,6 +66,26 @@ CLAIMS["C07"] = dict(
     technique="static analysis: loop-carried-state dataflow + AST rule on reads of delta + interpreted dispatch tables",
     design="§3 E2/E3, §4 C07", engine="E2")
 
+CLAIMS["C17"] = dict(
+    category="other",
+    text="Static agreement rules for the C export layer: (LAYOUT) the element-count shape c0 + SUM(c1 + DIM*N) of every writer, reader and sizing "
+         "function of the CPaths / CPath / CPolyPath layouts is extracted from the AST and must agree, with EXPORT_VERTEX_DIMENSIONALITY 2 and 3; the "
+         "stored count counts exactly the written records; the first element is the allocated length; (FORWARD) each of the 76 exported parameters "
+         "reaches the native parameter of its meaning, resolved by declaration (constructor slots judged by parameter name), none of another meaning, "
+         "none dropped; (SCALE) dimensional analysis of the D exports. A layout mismatch is simultaneously a round-trip failure and an out-of-bounds access.",
+    note="Does not decide that the native call returns the right result. Shapes outside the supported loop nest make the run analysis-broken (exit 2).",
+    technique="static analysis: symbolic element-count shapes of marshalling code + parameter-flow forwarding table + dimensional analysis",
+    design="§3 E4/E8, §4 C17", engine="E4")
+CLAIMS["C16"] = dict(
+    category="other",
+    text="Static dimensional analysis of the floating-point API: in every function that derives a scale from a precision, and in ClipperD, each length "
+         "(paths, rectangles, delta, arc tolerance) is S^1 at every integer-API argument and S^0 at every return; ClipperD's scale_/invScale_ wiring "
+         "is as documented; double->int64 coordinate conversion happens only through std::round; the D output builders equal their 64-bit siblings "
+         "modulo de-scaling (sibling identity, engine E6).",
+    note="Bit-exact equality of results (floating-point evaluation order) and node-for-node tree shape beyond builder identity are NOT decided.",
+    technique="static analysis: unit/dimension inference over the AST + sibling-identity alignment",
+    design="§3 E8/E6, §4 C16", engine="E8")
+
 NOT_APPLICABLE = {
     "C02": "exactness on degenerate rectilinear input is a runtime interplay of horizontal joins; no structural clause is a necessary condition (DESIGN §4)",
     "C06": "every clause is a distance/region statement over all polygons and deltas; nothing is visible in the shape of the code (DESIGN §4)",
@@ -120,6 +140,10 @@ def main():
              "kind_free_text": "member-state hygiene: def-before-use, clean-at-exit, Clear completeness, loop-carried state (AST effects + vlib/flow.py)"},
             {"name": "E3", "path": "/verif/vlib/engines/e3_tables.py", "serves_properties": ["C01"],
              "kind_free_text": "finite decision tables by abstract interpretation of the AST (vlib/evalx.py) against definitional oracles"},
+            {"name": "E4", "path": "/verif/vlib/engines/e4_layout.py", "serves_properties": ["C17"],
+             "kind_free_text": "flat-array layout shapes and exported-parameter forwarding"},
+            {"name": "E8", "path": "/verif/vlib/engines/e8_scale.py", "serves_properties": ["C16", "C17"],
+             "kind_free_text": "dimensional analysis of the scale factor through the D API"},
             {"name": "E5", "path": "/verif/vlib/engines/e5_errors.py", "serves_properties": ["C11"],
              "kind_free_text": "error-discipline path rules on the structured CFG (vlib/flow.py)"},
         ],
